@@ -21,11 +21,23 @@ Theorem examples_nonvacuous :
   /\ valid_fields (mkdtf 2199 12 31 23 59 59 999500) = true
   /\ dt_unconvert (mkaware (mkdtf 2020 1 2 3 4 5 0) None None) = Err Reject.
 Proof.
-  assert (NL : forall s, existsb (N.eqb 10) s = false -> no_nl s) by (intros s H; exact H).
-  repeat split; try (vm_compute; reflexivity); try (vm_compute; intuition congruence).
-  all: try (intros m E; injection E as <-; vm_compute; reflexivity).
-  all: try (intros n E; injection E as <-; vm_compute; reflexivity).
-  all: try (intros n E; try discriminate; injection E as <-; split; [vm_compute; reflexivity| intros; vm_compute; reflexivity]).
-  all: try (intros; discriminate).
+  assert (K : forall sg hh mm nm, (forall m, mm = Some m -> m < 60)%N ->
+              (match sg with SMinus => hh * 60 + match mm with Some m => m | None => 0 end <= 720
+                | _ => hh * 60 + match mm with Some m => m | None => 0 end <= 840 end)%N ->
+              existsb (N.eqb 10) nm = false -> (mm = None -> minutes_like nd_zeros nm = false) ->
+              off_ok nd_zeros (mkoff sg hh mm (Some nm))).
+  { intros sg hh mm nm A B C D. unfold off_ok. cbn [o_mm o_sign o_hh o_name o_mmv]. split; [exact A|]. split; [exact B|].
+    split; [intros n E; injection E as <-; exact C|]. intros E0 n E; injection E as <-. apply D, E0. }
+  split; [apply K; [intros m E; discriminate| vm_compute; discriminate | reflexivity | intros _; vm_compute; reflexivity]|].
+  split; [unfold off_ok, ist; cbn [o_mm o_sign o_hh o_name o_mmv]; split; [intros m E; injection E as <-; reflexivity|];
+          split; [vm_compute; discriminate|]; split; intros; discriminate|].
+  split; [apply K; [intros m E; injection E as <-; reflexivity| vm_compute; discriminate | reflexivity | intros E; discriminate]|].
+  split; [unfold date_ok; vm_compute; intuition congruence|].
+  split; [unfold time_ok; split; [reflexivity|]; split; [reflexivity|]; split; [reflexivity|]; split;
+          [intros m E; injection E as <-; reflexivity|intros o E; injection E as <-;
+           apply K; [intros m E; discriminate| vm_compute; discriminate | reflexivity | intros _; vm_compute; reflexivity]]|].
+  do 12 (split; [vm_compute; reflexivity|]).
+  split; [intros n E; injection E as <-; split; [reflexivity|intros _; vm_compute; reflexivity]|].
+  split; vm_compute; reflexivity.
 Qed.
 Print Assumptions examples_nonvacuous.
